@@ -17,12 +17,13 @@
      Blocks_cursor_*           the cursor primitives stay inside the line; the look-ahead byte exists
      Blocks_removed_paragraph_retightens, Blocks_tightness_reads   list tightness (BLK-1 repaired)
      Blocks_refdef_title_inside_consumed   reference definitions (INL-2 repaired)
+     Blocks_total_*_partial    steps towards totality (Proofs/BlocksTotal.v: inventory of the Panic sites)
    What is only stated: Blocks_total_full_statement (no panic on valid UTF-8),
    Blocks_front_matter_composition_full_statement. *)
 From Coq Require Import List NArith Arith Bool Strings.String.
 From V Require Import Base.Bytes Base.Res Model.Ast Model.Strings Model.Feed Model.FrontMatter Model.RefDef Model.Blocks
   Spec.LineEndings Spec.Valid Spec.EscapeSpec Proofs.FeedProofs Proofs.ValidProofs Proofs.BlocksProofs Proofs.BlocksCursor
-  Proofs.BlocksTight Proofs.RefDefTitle.
+  Proofs.BlocksTight Proofs.RefDefTitle Proofs.BlocksTotal.
 Import ListNotations.
 Local Open Scope string_scope.
 Local Open Scope list_scope.
@@ -120,9 +121,72 @@ Proof.
 Qed.
 Print Assumptions Blocks_lines_lf_terminated.
 
-(* totality of the whole block phase: stated, not proved.  The UTF-8 premise is necessary: *)
+(* totality of the whole block phase: stated, not proved.  The UTF-8 premise is necessary (Blocks_total_needs_utf8).
+   Proofs/BlocksTotal.v lists every Panic site of Model/Blocks.v and Model/RefDef.v with the invariant that excludes
+   it.  PROVED below (Blocks_total_*_partial), for every input / state: the invariant of the lines, the UTF-8 step of
+   add_line, find_first_nonspace and the column-mode advance_offset under the cursor invariant, add_line and
+   finalize under explicit premises on the node.  MISSING for the full statement: that every handler of
+   check_open_blocks / open_new_blocks keeps the cursor, tree and boundary invariants (per scanner: a match ends inside
+   the line at an ASCII byte; where a column-mode advance lands), the closing loops (finalize_up_to,
+   add_child_loop), parse_reference_inline on NUL-free valid content, the table functions, the fuel bounds. *)
 Definition Blocks_total_full_statement : Prop :=
   forall o x, utf8_valid x = true -> exists r, parse_blocks o x = Ok r.
+
+(* every line handed to process_line: LF at the end, valid UTF-8, no CR / LF / NUL before the LF *)
+Theorem Blocks_total_lines_partial : forall x, utf8_valid x = true ->
+  Forall (fun l => lf_terminated (norm_line l) /\ utf8_valid (norm_line l) = true /\ clean_line l = true) (lines x).
+Proof. exact lines_lf_utf8. Qed.
+Print Assumptions Blocks_total_lines_partial.
+
+(* the from_utf8 unwrap of add_line: a suffix of a valid line from a character boundary is valid; the boundary
+   conditions the parser meets: offset 0, offset past the end, an ASCII byte at the offset or just before it *)
+Theorem Blocks_total_utf8_suffix_partial : forall line k,
+  utf8_valid line = true -> at_boundary line k -> utf8_valid (skipn k line) = true.
+Proof. exact skipn_utf8. Qed.
+Print Assumptions Blocks_total_utf8_suffix_partial.
+
+(* find_first_nonspace under the cursor invariant CI (offset inside the line; first_nonspace stale, or the position
+   and column after the white space from offset on): no panic (first_nonspace_column - column), the invariant is
+   re-established with a fresh first_nonspace, offset <= first_nonspace <= |line| *)
+Theorem Blocks_total_rescan_partial : forall c line,
+  CI c line ->
+  exists c', find_first_nonspace c line = Ok c' /\ fresh_fns c' line /\ CI c' line
+             /\ c_offset c' = c_offset c /\ c_column c' = c_column c /\ c_pct c' = c_pct c
+             /\ c_offset c' <= c_fns c' <= List.length line /\ c_indent c' = c_fnsc c' - c_column c'.
+Proof. exact ffn_total. Qed.
+Print Assumptions Blocks_total_rescan_partial.
+
+Theorem Blocks_total_cursor_start_partial : forall line k, k <= List.length line -> CI (mkCur k 0 0 0 0 false false 0) line.
+Proof. exact CI_start. Qed.
+Print Assumptions Blocks_total_cursor_start_partial.
+
+(* advance_offset(line, count, true) from a freshly scanned cursor never indexes past the line as long as count is
+   at most the indent plus the number of bytes from first_nonspace on (tabs and partially consumed tabs included) *)
+Theorem Blocks_total_advance_columns_partial : forall c line count,
+  c_offset c <= List.length line -> fresh_fns c line ->
+  count <= (c_fnsc c - c_column c) + (List.length line - c_fns c) ->
+  exists c', advance_offset c line count true = Ok c'
+             /\ c_offset c <= c_offset c' <= List.length line /\ c_fns c' = c_fns c /\ c_fnsc c' = c_fnsc c.
+Proof. exact advance_columns_total. Qed.
+Print Assumptions Blocks_total_advance_columns_partial.
+
+Theorem Blocks_total_add_line_partial : forall st id line n,
+  get st id = Ok n -> bi_open (binf n) = true -> utf8_valid line = true ->
+  at_boundary line (if c_pct (ps_cur st) then S (c_offset (ps_cur st)) else c_offset (ps_cur st)) ->
+  exists st', add_line st id line = Ok st'.
+Proof. exact add_line_total. Qed.
+Print Assumptions Blocks_total_add_line_partial.
+
+(* finalize: no panic for a node that is present and open while a line is being processed (line_number >= 1) or
+   none is; per kind (finalize_pre): Paragraph: the reference-definition loop answers Ok; fenced code block: the
+   content is valid UTF-8 and its first line end exists and is LF; indented code block: the content is not empty *)
+Theorem Blocks_total_finalize_partial : forall o st id n,
+  get st id = Ok n -> bi_open (binf n) = true ->
+  (ps_curline_len st = 0 \/ 1 <= ps_line_number st) ->
+  finalize_pre o st n ->
+  exists p st', finalize o st id = Ok (p, st').
+Proof. exact finalize_total. Qed.
+Print Assumptions Blocks_total_finalize_partial.
 
 Definition opts_default : bopts := mkBO false false false false false false false false None None (fun v => v).
 
